@@ -9,11 +9,11 @@ VARIABLES cmd, state, force
 vars == <<cmd, state, force>>
 
 FileStates(i) == {"absent", "present"} \cup (IF HasIn[i] THEN {"sameasinput"} ELSE {}) \cup (IF InPlace[i] THEN {"inplace"} ELSE {})
-DirStates == {"empty", "nonempty"}   \* output directories must exist
+DirStates == {"empty", "nonempty", "nonemptyglob"}   \* output directories must exist; "glob": the directory name contains [ ]
 States(i) == IF Kinds[i] = "dir" THEN DirStates ELSE FileStates(i)
 
 (* the command must refuse: an explicitly named output exists (a non-empty directory) and --force is not given *)
-Refuse(st, f) == ~f /\ st \in {"present", "sameasinput", "nonempty"}
+Refuse(st, f) == ~f /\ st \in {"present", "sameasinput", "nonempty", "nonemptyglob"}
 Expect(st, f) == IF Refuse(st, f) THEN "refuse"
                  ELSE IF st = "sameasinput" THEN "proceed-or-clean-failure"   \* forced aliasing may still be rejected, but cleanly
                  ELSE "proceed"
